@@ -15,7 +15,7 @@ type msgSeg struct {
 }
 
 // parseLayout linearises the append chain of the OCRA message (engine H): first segment first.
-func parseLayout(t *Term) ([]msgSeg, string) {
+func parseLayout(tb *TB, t *Term) ([]msgSeg, string) {
 	var rev []msgSeg
 	for i := 0; i < 64; i++ {
 		switch {
@@ -39,6 +39,9 @@ func parseLayout(t *Term) ([]msgSeg, string) {
 			} else {
 				return nil, "a conditional step of the message is not 'append one segment under one flag': " + clip(t.Args[0].String(), 120)
 			}
+		case t.Op == "call" && tb != nil && tb.Expand(t, 1) != t:
+			// the chain (or a part of it) is built by a module helper: read its result with the arguments bound
+			t = tb.Expand(t, 1)
 		default:
 			return nil, "the message does not start from an empty slice ([:0]) / is not a chain of appends: " + clip(t.String(), 160)
 		}
@@ -243,7 +246,7 @@ func runC05(c *Check, w *World) {
 	}
 	wr := writes[0]
 	c.Decide(dominatesInstr(wr, sums[0]), "R05.1", fn, "write-before-sum", "the message is written before the HMAC is finalised", "Write does not precede Sum on every path", w.InstrPos(wr))
-	segs, why := parseLayout(tb.Of(wr.Common().Args[0]))
+	segs, why := parseLayout(tb, tb.Of(wr.Common().Args[0]))
 	if why != "" {
 		c.Unk("R05.1", fn, "layout", why, w.InstrPos(wr))
 	} else {
@@ -264,7 +267,9 @@ func runC05(c *Check, w *World) {
 			}
 		}
 		wants := []want{
-			{"", "suite string", func(t *Term) bool { return t.String() == "conv([]byte; "+fld("Raw", CFG)+")" }},
+			{"", "suite string", func(t *Term) bool {
+				return t.String() == "conv([]byte; "+fld("Raw", CFG)+")" || t.String() == fld("Raw", CFG) // append(dst, s...) takes the string itself
+			}},
 			{"", "one zero byte", func(t *Term) bool { return isZeroByteSlice(tb, t) }},
 			{fld("IncludeCounter", CFG), "counter padded to 8", pad("Counter", 8)},
 			{fld("IncludeChallenge", CFG), "challenge right-padded to 128", pad("Challenge", 128)},
@@ -339,33 +344,49 @@ func runC05(c *Check, w *World) {
 
 	// R05.5 unselected fields have no influence: each input field is read only under its own flag
 	flagOf := map[string]string{"Counter": "IncludeCounter", "Challenge": "IncludeChallenge", "Password": "IncludePassword", "SessionInfo": "IncludeSession", "Timestamp": "IncludeTimestamp"}
-	EachInstr(der, func(in ssa.Instruction) {
-		var fname string
-		var base ssa.Value
-		switch x := in.(type) {
-		case *ssa.Field:
-			fname, base = fieldName(x.X.Type(), x.Field), x.X
-		case *ssa.FieldAddr:
-			fname, base = fieldName(x.X.Type(), x.Field), x.X
-		default:
-			return
-		}
-		flag, isInputField := flagOf[fname]
-		if !isInputField {
-			return
-		}
-		bt := tb.Of(base)
-		if bt.String() != IN && !(bt.Op == "alloc" && tb.derefOf(bt, nil).String() == IN) {
-			return
-		}
-		ok := false
-		for _, cd := range CondsAt(in.Block()) {
-			if cd.Pos && tb.Of(cd.V).String() == fld(flag, CFG) {
-				ok = true
+	var scanReads func(f *ssa.Function, e *Env, depth int)
+	scanReads = func(f *ssa.Function, e *Env, depth int) {
+		EachInstr(f, func(in ssa.Instruction) {
+			var fname string
+			var base ssa.Value
+			switch x := in.(type) {
+			case *ssa.Field:
+				fname, base = fieldName(x.X.Type(), x.Field), x.X
+			case *ssa.FieldAddr:
+				fname, base = fieldName(x.X.Type(), x.Field), x.X
+			case ssa.CallInstruction:
+				// message-building helpers handed the input: their reads count, with the arguments bound
+				g := x.Common().StaticCallee()
+				if g == nil || !w.InModule(g) || g.Blocks == nil || depth >= 2 || paramOfType(g, "OCRAInput") < 0 || strings.HasSuffix(FuncName(g), ".Validate") {
+					return
+				}
+				var args []*Term
+				for _, a := range x.Common().Args {
+					args = append(args, tb.Val(a, e))
+				}
+				scanReads(g, &Env{Fn: g, Params: args}, depth+1)
+				return
+			default:
+				return
 			}
-		}
-		c.Decide(ok, "R05.5", fn, "field-read:"+fname, "input."+fname+" is read only where the suite selects it ("+flag+")", "input."+fname+" is read on a path where "+flag+" is not known to be set: an unselected field can influence the code", w.InstrPos(in))
-	})
+			flag, isInputField := flagOf[fname]
+			if !isInputField {
+				return
+			}
+			bt := tb.Val(base, e)
+			if bt.String() != IN && !(bt.Op == "alloc" && tb.derefOf(bt, nil).String() == IN) {
+				return
+			}
+			ok := false
+			for _, cd := range CondsAt(in.Block()) {
+				if cd.Pos && tb.Val(cd.V, e).String() == fld(flag, CFG) {
+					ok = true
+				}
+			}
+			c.Decide(ok, "R05.5", FuncName(f), "field-read:"+fname, "input."+fname+" is read only where the suite selects it ("+flag+")", "input."+fname+" is read on a path where "+flag+" is not known to be set: an unselected field can influence the code", w.InstrPos(in))
+		})
+	}
+	scanReads(der, nil, 0)
 	ruleHistoryIndependence(c, w, tb, ef, "R05.H", gen)
 	checkRESTEndpoints(c, w, tb, ef, "R05.REST", "/ocra/generate")
 	c.Floor("R05.1", 8)
